@@ -30,6 +30,28 @@ CLAIMED = {
              "EPATH parser for ALL 32-bit values of the numbers involved.",
         design="4/C09", technique="symbolic execution of the real path encoders (CrossHair/z3) against an independent EPATH parser",
         note="Oracle: vlib/ref/epath.py from CIP Vol 1 C-1.4. Names come from templates / free ASCII strings <= 6 (12) chars; decimal index rendering modelled with fresh digit variables."),
+    "C01": dict(
+        text="Bounded symbolic scenario checking: the real LogixDriver.read runs against an independent reference controller whose memory image is "
+             "symbolic; for each request form (atomic, [i], [i,j,k], {n}, members, .bit, BOOL arrays, strings, program scope, duplicates, multi-service, "
+             "fragmented transfers at connection size 500/4000, rev 20 / >= 21 / Micro800) the solver decides value/type equality for ALL memory contents and indices.",
+        design="4/C01", technique="symbolic execution of the real driver against a reference target (CrossHair/z3); AST->z3 for bit-string kernels",
+        note="Oracles: vlib/ref/logix.py (controller), vlib/ref/values.py (memory interpretation), vlib/ref/eip.py (frame parser). Tag definitions come from pycomm3's own upload (checked by C05). Request shapes are an enumerated outer bound."),
+    "C02": dict(
+        text="Bounded symbolic scenario checking: the real LogixDriver.write runs against the reference controller with symbolic prior memory and symbolic "
+             "values; after a truthy write the WHOLE memory image must equal the reference effect (addressed range encoded, all other bytes unchanged), each "
+             "request applied exactly once, masks/lengths exact (enforced by the target), fragments tile the value, read-back returns the value.",
+        design="4/C02", technique="symbolic execution of the real driver against a reference target (CrossHair/z3)",
+        note="Same oracles as C01; the reference controller rejects trailing bytes, wrong mask widths and out-of-range fragments and logs every applied write."),
+    "C15": dict(
+        text="Bounded symbolic checking of parse_connection_path + route encoding on grammar templates: symbolic separators, slots 0..300, TCP ports 0..70000, "
+             "port numbers, one symbolic IP octet, every alias, single-character alias edits; result compared with a reference port-segment encoder; malformed inputs must raise RequestError/DataError.",
+        design="4/C15", technique="symbolic execution of the real parser/encoder on grammar templates (CrossHair/z3)",
+        note="Strings come from templates with symbolic pieces, not free-form strings; vlib/ref/epath.py is the oracle for route bytes."),
+    "C19": dict(
+        text="Bounded symbolic checking of every EnumMap table discovered in the package: all 2^len letter casings of every member name through item access, get and membership "
+             "(symbolic casing mask), reverse lookups of every code, data-type codes, all 256 status bytes and every (status, extended status) pair.",
+        design="4/C19", technique="symbolic execution of the real MapMeta lookups with a symbolic casing mask (CrossHair/z3) + exhaustive reverse enumeration",
+        note="ASCII str.lower model and linear-scan dict model are part of the trusted base; member names are checked to be ASCII."),
 }
 NA_REASON = "check not landed yet in this revision of /verif (work in progress; see DESIGN.md section 4 for the planned obligations)"
 
